@@ -68,7 +68,7 @@ TRUSTED_EXTRA = ["numpy.polynomial.polynomial.polyval is modelled as its documen
 # (F) anchor fingerprints — budget steering only (DESIGN 2.3): a changed hash is neither an alarm nor a tie,
 # it doubles the quick correspondence budget
 ANCHORS = {
-    "nixio/data_array.py": {"_read_data": "e0cec47ff1b457d0", "polynom_coefficients": "d7c531796d9ec725",
+    "nixio/data_array.py": {"_read_data": "e0cec47ff1b457d0", "polynom_coefficients": "6103c0c55fa3c006",
                             "expansion_origin": "7b96ebea7ae5eeb0"},
     "nixio/util/util.py": {"apply_polynomial": "864ca2484ced393a", "check_attr_type": "ca867a6ddee28c6a"},
     "nixio/data_view.py": {"__init__": "09c7372ec9e74543", "_read_data": "309a3fa4d9c8303a",
@@ -228,6 +228,22 @@ def py_coeff_arg(arg):
         return None
     if arg[0] == "scalar":
         return py_number(arg[1], arg[2] if len(arg) > 2 else "float")
+    if arg[0] == "notflat":         # something with a length that is not a flat sequence
+        n, kind = int(arg[1]), (arg[2] if len(arg) > 2 else "nested")
+        if kind == "str":
+            return "a" * n
+        if kind == "dict":
+            return {k: 1.0 for k in range(n)}
+        if kind == "nd2":
+            return np.ones((n, 2))
+        if kind == "nd3":
+            return np.ones((n, 1, 1))
+        return [[1.0, 2.0] for _ in range(n)] if n else ()
+    if arg[0] == "badelems":        # flat, but an element is no real number
+        n = int(arg[2]) if len(arg) > 2 else 1
+        if arg[1] == "complex":
+            return [1.0] * (n - 1) + [1 + 2j]
+        return [1.0] * (n - 1) + ["x"]
     cs = [frac(c) for c in arg[1]]
     cont = arg[2] if len(arg) > 2 else "list"
     numkind = arg[3] if len(arg) > 3 else "float"
@@ -308,8 +324,18 @@ class Session:
             if a is not None:
                 for _ in data.shape:
                     a.append_sampled_dimension(1.0)
+        self.da2 = self.block.data_arrays["arr"]       # a second live object for the same array
         self.ntag = 0
         self.views = {}
+
+    def handle(self, h):
+        """0: the object create_data_array returned (after reopen: the first one fetched), 1: a second object
+        kept alongside, 2: a fresh object fetched for this operation"""
+        if h == 1:
+            return self.da2
+        if h == 2:
+            return self.block.data_arrays["arr"]
+        return self.da
 
     def reopen(self):
         self.views = {}
@@ -317,6 +343,7 @@ class Session:
         self.file = self.nix.File.open(self.path, self.nix.FileMode.ReadWrite)
         self.block = self.file.blocks["blk"]
         self.da = self.block.data_arrays["arr"]
+        self.da2 = self.block.data_arrays[0]
         if self.tw is not None:
             self.tw = self.block.data_arrays["twin"]
 
@@ -338,7 +365,7 @@ class Session:
     def view(self, win, how, twin=False):
         """DataView handles are kept and reused for a repeated (window, via): a view made before a calibration
         change must read with the calibration current at the time of the read"""
-        key = core.canon([win, (how or {}).get("via"), twin])
+        key = core.canon([win, (how or {}).get("via"), (how or {}).get("h", 0), twin])
         if key not in self.views:
             self.views[key] = self._view(win, how, twin)
         return self.views[key]
@@ -347,7 +374,7 @@ class Session:
         """returns DataView (or list of two for twin) built the way `how` says; falls back to get_slice"""
         nix = self.nix
         via = (how or {}).get("via", "get_slice")
-        arrs = [self.da] + ([self.tw] if twin and self.tw is not None else [])
+        arrs = [self.handle((how or {}).get("h", 0))] + ([self.tw] if twin and self.tw is not None else [])
         if win is None:
             return [nix.data_view.DataView(a, None) for a in arrs], "dataview"
         pos = [int(w[0]) for w in win]
@@ -360,6 +387,10 @@ class Session:
                         for a in arrs], via
             except Exception:
                 pass        # position -> index conversion is C07's subject: fall back to index mode
+        link = {"i": "Indexed", "u": "Untagged"}.get(via[-1] if via[-2:-1] == "_" else "", "Tagged")
+        via0 = via
+        if via[-2:-1] == "_":
+            via = via[:-2]
         if via in ("tag", "tagfeat", "mtag", "mtagfeat"):
             try:
                 self.ntag += 1
@@ -379,9 +410,10 @@ class Session:
                 out = []
                 if via.endswith("feat"):
                     for a in arrs:
-                        tag.create_feature(a, nix.LinkType.Tagged)
+                        tag.create_feature(a, getattr(nix.LinkType, link))
                     for k, a in enumerate(arrs):
                         out.append(tag.feature_data(k) if via == "tagfeat" else tag.feature_data(0, k))
+                    return out, via0
                 else:
                     for a in arrs:
                         tag.references.append(a)
@@ -421,25 +453,26 @@ def run_impl(ctx, case):
             rop = list(op)
             try:
                 if name == "set_coeffs":
-                    s.da.polynom_coefficients = py_coeff_arg(op[1])
+                    s.handle(op[2] if len(op) > 2 else 0).polynom_coefficients = py_coeff_arg(op[1])
                     outs.append({"ok": None})
                 elif name == "set_origin":
-                    s.da.expansion_origin = py_origin_arg(op[1])
+                    s.handle(op[2] if len(op) > 2 else 0).expansion_origin = py_origin_arg(op[1])
                     outs.append({"ok": None})
                 elif name == "read":
                     how = op[2] if len(op) > 2 else "getitem"
-                    outs.append({"ok": canon_array(read_through(s.da, op[1], how))})
+                    outs.append({"ok": canon_array(read_through(s.handle(op[3] if len(op) > 3 else 0), op[1], how))})
                 elif name == "view":
                     how = op[3] if len(op) > 3 else {"via": "get_slice"}
                     (dv,), used = s.view(op[1], how)
-                    if used in ("tag", "tagfeat", "mtag", "mtagfeat", "get_slice_data"):
+                    if used != "get_slice" and used != "dataview":
                         rop[1] = [[int(sl.start), int(sl.stop)] for sl in dv._slices] if dv.valid else None
                     rop = rop[:3] + [dict(how, used=used)]
                     outs.append({"ok": canon_array(read_through(dv, op[2], how.get("read", "getitem")))})
                 elif name == "coeffs":
-                    outs.append({"ok": [rat_or_special(c) for c in s.da.polynom_coefficients]})
+                    outs.append({"ok": [rat_or_special(c) for c in s.handle(op[1] if len(op) > 1 else 0)
+                                        .polynom_coefficients]})
                 elif name == "origin":
-                    o = s.da.expansion_origin
+                    o = s.handle(op[1] if len(op) > 1 else 0).expansion_origin
                     outs.append({"ok": None if o is None else rat_or_special(o)})
                 elif name == "raw":
                     outs.append({"ok": canon_array(s.raw_h5())})
@@ -536,8 +569,12 @@ def gen_coeff_arg(rng, profile):
     r = rng.random()
     if r < 0.12:
         return None
-    if r < 0.17:
+    if r < 0.16:
         return ["scalar", rat(rng.choice([0, 0, 5, 2.5, 1])), rng.choice(["int", "float"])]
+    if r < 0.20:                    # invalid values: refused, nothing changes (empty ones clear)
+        if rng.random() < 0.6:
+            return ["notflat", rng.choice([0, 1, 2, 2, 3]), rng.choice(["nested", "nested", "str", "dict", "nd2", "nd3"])]
+        return ["badelems", rng.choice(["text", "complex"]), rng.randint(1, 3)]
     n = rng.choice([0, 1, 1, 2, 2, 2, 3, 3, 4, 5])
     if profile == "float":
         cs = [Fraction(rng.choice(DECIMALS + [rng.uniform(-3, 3), rng.uniform(-3, 3)])) for _ in range(n)]
@@ -640,22 +677,25 @@ def gen_case(rng, profile):
         n *= d
     raw = [gen_raw(rng, dtype, profile) for _ in range(n)]
     ops = []
+
+    def hnd():                                  # which live object: mostly the first, often a second / fresh one
+        return rng.choice([0, 0, 0, 1, 1, 2])
     if rng.random() < 0.6:                      # most histories start calibrated
         ops.append(rng.choice([["set_coeffs", gen_coeff_arg(rng, profile)], ["set_origin", gen_origin_arg(rng, profile)],
-                               ["set_coeffs", gen_coeff_arg(rng, profile)]]))
+                               ["set_coeffs", gen_coeff_arg(rng, profile)]]) + [hnd()])
     for _ in range(rng.randint(5, 12)):
         r = rng.random()
         if r < 0.17:
-            ops.append(["set_coeffs", gen_coeff_arg(rng, profile)])
+            ops.append(["set_coeffs", gen_coeff_arg(rng, profile), hnd()])
         elif r < 0.32:
-            ops.append(["set_origin", gen_origin_arg(rng, profile)])
+            ops.append(["set_origin", gen_origin_arg(rng, profile), hnd()])
         elif r < 0.57:
             mal = rng.random() < 0.12
             ix = gen_index(rng, shape, mal)
             how = rng.choice(["array", "none"]) if ix is None else rng.choice(["getitem", "bare"])
             if ix is None and rng.random() < 0.4:
                 ix, how = [[None, None, None]], "bare"          # da[:]
-            ops.append(["read", ix, how])
+            ops.append(["read", ix, how, hnd()])
         elif r < 0.80:
             q = rng.random()
             if q < 0.05:
@@ -663,13 +703,14 @@ def gen_case(rng, profile):
             else:
                 win = gen_window(rng, shape, invalid=(q < 0.12))
             via = rng.choice(["get_slice", "get_slice", "dataview", "tag", "mtag", "tagfeat", "mtagfeat",
-                              "get_slice_data"])
+                              "get_slice_data", "tagfeat_i", "tagfeat_u", "mtagfeat_i", "mtagfeat_u"])
+            vh = hnd()
             if win is None:
                 via = "dataview"
             earlier = [o for o in ops if o[0] == "view" and o[1] is not None]
             if earlier and rng.random() < 0.3:      # read again through a view handle made earlier
                 prev = rng.choice(earlier)
-                win, via, q = prev[1], prev[3]["via"], 1.0
+                win, via, q, vh = prev[1], prev[3]["via"], 1.0, prev[3].get("h", 0)
                 if any(w[1] > d or w[0] < 0 or w[1] < w[0] for w, d in zip(win, shape)):
                     q = 0.1
             wshape = [w[1] - w[0] for w in win] if (win is not None and q >= 0.12) else list(shape)
@@ -678,11 +719,11 @@ def gen_case(rng, profile):
             rd = rng.choice(["array", "none"]) if uix is None else rng.choice(["getitem", "bare"])
             if uix is None and rng.random() < 0.4:
                 uix, rd = [[None, None, None]], "bare"          # view[:]
-            ops.append(["view", win, uix, {"via": via, "read": rd}])
+            ops.append(["view", win, uix, {"via": via, "read": rd, "h": vh}])
         elif r < 0.85:
-            ops.append(["coeffs"])
+            ops.append(["coeffs", hnd()])
         elif r < 0.89:
-            ops.append(["origin"])
+            ops.append(["origin", hnd()])
         elif r < 0.94:
             ops.append(["raw"])
         elif r < 0.97:
@@ -861,9 +902,10 @@ class Ref:
         self.raw = raw_np
         self.coeffs = []
         self.origin = None
+        self.garbage = False        # an invalid coefficient value was accepted: no polynomial is defined
 
     def calibrated(self):
-        return bool(self.coeffs) or (self.origin is not None and self.origin != 0)
+        return self.garbage or bool(self.coeffs) or (self.origin is not None and self.origin != 0)
 
     def expect(self, sub):
         sub = np.asarray(sub)
@@ -877,6 +919,8 @@ class Ref:
 
 def compare_read(ref, got, sub, what, case, k, site):
     """got: array returned by nixio, sub: the same selection taken from the raw copy"""
+    if ref.garbage:
+        return None
     got = np.asarray(got)
     dtype, shape, want, xs = ref.expect(sub)
     inp = {"case": shrink_case(case, k), "op": case["ops"][k]}
@@ -901,6 +945,22 @@ def compare_read(ref, got, sub, what, case, k, site):
     return None
 
 
+def refused_only_when_calibrated(twin_read, exc, ref, case, k, what, site):
+    """... but the calibration has no say in it: a read that the uncalibrated twin (same data, same index
+    expression, same path) answers must be answered by the calibrated array too"""
+    if not ref.calibrated():
+        return None
+    try:
+        twin_read()
+    except Exception:
+        return None
+    return Failure("%s: the read fails although the same read of an uncalibrated array with the same data "
+                   "succeeds" % what, {"case": shrink_case(case, k), "op": case["ops"][k]},
+                   "%s: %s" % (type(exc).__name__, str(exc)[:120]),
+                   {"coeffs": [float(c) for c in ref.coeffs],
+                    "origin": None if ref.origin is None else float(ref.origin)}, site)
+
+
 def check_raw(s, ref, case, k):
     h5 = s.raw_h5()
     if h5.dtype != ref.raw.dtype or h5.shape != ref.raw.shape or not np.array_equal(h5, ref.raw):
@@ -910,14 +970,17 @@ def check_raw(s, ref, case, k):
     return None
 
 
-def check_getters(s, ref, case, k):
+def check_getters(s, ref, case, k, da=None):
+    if ref.garbage:
+        return None
+    da = s.da if da is None else da
     inp = {"case": shrink_case(case, k), "op": case["ops"][k]}
-    got = [np_to_frac(c) for c in s.da.polynom_coefficients]
+    got = [np_to_frac(c) for c in da.polynom_coefficients]
     if got != ref.coeffs:
         return Failure("polynom_coefficients does not return what was (not) assigned", inp,
                        [None if g is None else float(g) for g in got], [float(c) for c in ref.coeffs],
                        "DataArray.polynom_coefficients")
-    o = s.da.expansion_origin
+    o = da.expansion_origin
     og = None if o is None else np_to_frac(o)
     if og != ref.origin:
         return Failure("expansion_origin does not return what was (not) assigned", inp,
@@ -941,15 +1004,16 @@ def oracle_case(ctx, case):
                 arg = op[1]
                 try:
                     if name == "set_coeffs":
-                        s.da.polynom_coefficients = py_coeff_arg(arg)
+                        s.handle(op[2] if len(op) > 2 else 0).polynom_coefficients = py_coeff_arg(arg)
                         accepted = True
                     else:
-                        s.da.expansion_origin = py_origin_arg(arg)
+                        s.handle(op[2] if len(op) > 2 else 0).expansion_origin = py_origin_arg(arg)
                         accepted = True
                 except Exception:
                     accepted = False
                 if accepted:
                     if name == "set_coeffs":
+                        ref.garbage = False
                         if arg is None:
                             ref.coeffs = []
                         elif arg[0] == "seq":
@@ -957,7 +1021,13 @@ def oracle_case(ctx, case):
                         else:
                             # the property does not say what assigning a bare number means: whatever the
                             # getter reports afterwards is the calibration the reads must follow
-                            ref.coeffs = [np_to_frac(c) for c in s.da.polynom_coefficients]
+                            try:
+                                ref.coeffs = [np_to_frac(c) for c in s.da.polynom_coefficients]
+                                ref.garbage = any(c is None for c in ref.coeffs)
+                            except (TypeError, ValueError):
+                                # an invalid value was accepted and the getter returns no flat list of numbers: no
+                                # polynomial is defined, but reads must still be answered
+                                ref.coeffs, ref.garbage = [], True
                     else:
                         if arg is None:
                             ref.origin = None
@@ -977,21 +1047,27 @@ def oracle_case(ctx, case):
                 except Exception:
                     sub = None              # NumPy refuses the expression: nothing is required of the values
                 if sub is not None:
-                    try:
+                    def do_read(da):
                         if how == "np":
-                            got = s.da[np_index(op[1])] if op[1] is not None else s.da[:]
-                        elif how == "iter":
-                            parts = [np.asarray(p) for p in s.da]
-                            got = np.array(parts).reshape(np.asarray(ref.raw[:]).shape) if parts else None
-                            sub = ref.raw[:]
-                        elif how == "read_direct":
-                            buf = np.zeros(ref.raw.shape, dtype=float if ref.calibrated() else ref.raw.dtype)
-                            s.da.read_direct(buf)
-                            got, sub = buf, ref.raw[:]
-                        else:
-                            got = read_through(s.da, op[1], how)
-                    except Exception:
-                        got = None          # a refused read is C06's subject
+                            return da[np_index(op[1])] if op[1] is not None else da[:]
+                        if how == "iter":
+                            parts = [np.asarray(p) for p in da]
+                            return np.array(parts).reshape(np.asarray(ref.raw[:]).shape) if parts else None
+                        if how == "read_direct":
+                            buf = np.zeros(ref.raw.shape, dtype=float if (ref.calibrated() and da is not s.tw)
+                                           else ref.raw.dtype)
+                            da.read_direct(buf)
+                            return buf
+                        return read_through(da, op[1], how)
+                    if how in ("iter", "read_direct"):
+                        sub = ref.raw[:]
+                    da = s.handle(op[3] if len(op) > 3 else 0)
+                    try:
+                        got = do_read(da)
+                    except Exception as e:
+                        got = None          # which index expressions are refused is C06's subject ...
+                        f = refused_only_when_calibrated(lambda: do_read(s.tw), e, ref, case, k,
+                                                         "DataArray read (%s)" % how, "DataArray._read_data")
                     if got is not None:
                         f = compare_read(ref, got, sub, "DataArray read (%s)" % how, case, k,
                                          "DataArray._read_data")
@@ -1005,8 +1081,11 @@ def oracle_case(ctx, case):
                     rd = how.get("read", "getitem")
                     try:
                         got = read_through(dvs[0], op[2], rd)
-                    except Exception:
+                    except Exception as e:
                         got = None
+                        if len(dvs) > 1:
+                            f = refused_only_when_calibrated(lambda: read_through(dvs[1], op[2], rd), e, ref, case, k,
+                                                             "DataView read (%s)" % used, "DataView._read_data")
                     if got is not None:
                         if used in ("get_slice", "dataview"):
                             try:
@@ -1041,7 +1120,7 @@ def oracle_case(ctx, case):
             elif name == "raw":
                 f = check_raw(s, ref, case, k)
             elif name in ("coeffs", "origin"):
-                f = check_getters(s, ref, case, k)
+                f = check_getters(s, ref, case, k, s.handle(op[1] if len(op) > 1 else 0))
             if f is not None:
                 fails.append(f)
                 break
@@ -1087,6 +1166,15 @@ FIXED_CASES = [
      "ops": [["set_coeffs", ["seq", ["0/1"], "ndarray", "float"]], ["coeffs"], ["read", [[None, None, None]], "bare"],
              ["set_coeffs", ["seq", ["1/1", "2/1"], "ndarray", "float"]], ["read", [[None, None, None]], "bare"],
              ["set_coeffs", ["seq", [], "ndarray", "float"]], ["read", [[None, None, None]], "bare"]]},
+    # the repaired defect 76b87d8: a nested sequence was stored as a 2-D dataset when no coefficients existed (every
+    # later read raised ValueError) and refused when some existed
+    {"dtype": "int16", "shape": [2, 3], "raw": ["0/1", "1/1", "2/1", "3/1", "4/1", "5/1"], "coeffs": None,
+     "origin": None,
+     "ops": [["set_coeffs", ["notflat", 2, "nested"]], ["coeffs"], ["read", [[None, None, None]], "bare"],
+             ["set_coeffs", ["notflat", 1, "nd2"]], ["read", None, "array"],
+             ["set_coeffs", ["seq", ["1/1", "2/1"], "list", "float"]], ["set_coeffs", ["notflat", 2, "nested"]],
+             ["coeffs"], ["read", [1], "bare"], ["set_coeffs", ["badelems", "text", 2]], ["coeffs"],
+             ["set_coeffs", ["notflat", 0, "str"]], ["coeffs"], ["read", [1], "bare"], ["raw"]]},
     # the suite's example and its complements: integer storage, origin without coefficients, clearing
     {"dtype": "int64", "shape": [4], "raw": ["1/1", "2/1", "3/1", "4/1"], "coeffs": None, "origin": None,
      "ops": [["set_origin", ["num", "-1/1", "int"]], ["read", [[None, None, None]], "bare"], ["read", [2], "bare"],
